@@ -236,11 +236,14 @@ check("C18", "other",
       "capacity-1 and capacity attachments and ENOBUFS retries; the Resources.tla ledger (munmap matches a live mapping, "
       "no double free of control buffers, no close of an unowned descriptor, no slice from a null base or outside a live "
       "mapping) is validated on the same runs and on zero-length and odd-length regions created from bytes and from a "
-      "fill byte at both public API levels, each batch in a sacrificial process.",
-      "A TLA+ model decides extent and lifetime discipline at the hook sites only; accesses that no hook reports, "
-      "use-after-free inside libc/kernel copies and compiler-level UB - i.e. the AddressSanitizer run the property's "
-      "quantifier text names - are NOT decided and not claimed (ASan would be a change of technique).",
-      "TLC trace validation against Frag.tla (buffer windows) and the Resources.tla ledger",
+      "fill byte at both public API levels, each batch in a sacrificial process. A sample of the same TLC-generated "
+      "shapes (half with capacity-1/capacity attachments; 400 quick, 4000 thorough) is replayed once more with valgrind "
+      "memcheck as the observer: no invalid read/write/free, no buffer handed to the kernel beyond its allocation.",
+      "A TLA+ model decides extent and lifetime discipline at the hook sites only; the memcheck replay of the model's "
+      "shapes adds heap-level observation of those runs, but accesses inside stack frames, use-after-free inside "
+      "libc/kernel copies and compiler-level UB - i.e. the AddressSanitizer run with pre-poisoned buffers the "
+      "property's quantifier text names - are NOT decided and not claimed.",
+      "TLC trace validation against Frag.tla (buffer windows) and the Resources.tla ledger; replay of the generated shapes under valgrind memcheck",
       "DESIGN.md 6 (C18)")
 check("C19", "translation_validation",
       "Channels.tla is the ideal unbounded-FIFO model the property names. Single-threaded programs = its one-agent "
